@@ -155,7 +155,7 @@ pub fn gen_case(campaign: &str, r: &mut Rng) -> Case {
         "knot" => c = c.set("p", Val::L(vec![ser_float(r, finite_only), ser_float(r, finite_only)])),
         "seg" => c = c.set("pw", Val::Pw(vec![(ser_float(r, finite_only), nums(r))])),
         _ => {
-            let k = r.below(6) as usize;
+            let k = crate::campaigns::size_capped(r, 0, 6, 400); // usually 0..5 segments, sometimes hundreds (length prefixes above 255)
             c = c.set("pw", Val::Pw((0..k).map(|_| (ser_float(r, finite_only), nums(r))).collect()));
         }
     }
